@@ -60,6 +60,14 @@ AbsY(W, r) == W.oy + r
 Accepts(W, c, r) == Inside(W.clip, AbsX(W, c), AbsY(W, r))
 Landing(W, c, r) == <<AbsX(W, c), AbsY(W, r)>>
 
+(* A cell whose content is displayed w cells wide (w >= 1; the width the    *)
+(* terminal gives it, whether the caller stated it or left it to be         *)
+(* measured) occupies the columns c .. c + w - 1 of row r.  It is accepted  *)
+(* iff every one of them is: drawn in part it would either lose a half or   *)
+(* change a cell outside the window.                                        *)
+Columns(W, c, r, w) == {<<AbsX(W, c + i), AbsY(W, r)>> : i \in 0..(w - 1)}
+AcceptsWide(W, c, r, w) == \A i \in 0..(w - 1) : Accepts(W, c + i, r)
+
 (* The visible part of W in W's own coordinates. *)
 Visible(W) == {<<c, r>> \in (W.clip.x0 - W.ox..W.clip.x1 - 1 - W.ox) \X (W.clip.y0 - W.oy..W.clip.y1 - 1 - W.oy) : TRUE}
 
